@@ -771,6 +771,12 @@ def gen_doc(rng, big=False):
                                     nj=rng.choice([1, 2, 2, 3, 4]))
     ic = d["instance_config"]
     nj, nm = feats["nj"], feats["nm"]
+    if rng.random() < 0.25:
+        ic["instance"]["time_behavior"] = rng.choice([{"type": "uni", "offset": rng.choice([1, 3, 0.5, 2.5])}, {"type": "poisson"},
+                                                      {"type": "gaussian", "std": rng.choice([1, 0.5, 2.5])},
+                                                      {"type": "gamma", "scale": rng.choice([1, 0.5])},
+                                                      {"type": "uniform", "offset": 1.5}, {"type": "normal", "std": 2}])
+        feats["time_behavior"] = ic["instance"]["time_behavior"]["type"]
     if ("logistics" in ic and rng.random() < 0.4) or ("logistics" not in ic and rng.random() < 0.3):
         # (without a logistics section the default travel matrix has to cover every standalone buffer)
         gen.gen_custom_buffers(rng, d, nj)
@@ -1022,6 +1028,36 @@ def setup_matrix_oracle(d, inst):
     return vs
 
 
+def time_behavior_oracle(d, inst):
+    """Direct reading of instance.time_behavior: the compiled processing-time objects carry the distribution and the
+    parameters written in the document (uniform: base -/+ offset; gaussian: std; gamma: scale; poisson: mean base+0.5)."""
+    vs = []
+    tb = d["instance_config"]["instance"].get("time_behavior")
+    if not isinstance(tb, dict):
+        return vs
+    kind = str(tb.get("type"))
+    for j in inst.instance.specification:
+        for o in j.operations:
+            c = o.duration
+            name = type(c).__name__
+            base = getattr(c, "base_time", None)
+            ok = True
+            if kind in ("uni", "uniform"):
+                off = float(tb["offset"])
+                ok = name == "UniformFunction" and getattr(c, "low", None) == base - off and getattr(c, "high", None) == base + off
+            elif kind in ("gaussian", "normal"):
+                ok = name == "GaussianFunction" and getattr(c, "std", None) == float(tb["std"])
+            elif kind == "gamma":
+                ok = name == "GammaFunction" and getattr(c, "scale", None) == float(tb["scale"])
+            elif kind == "poisson":
+                ok = name == "PoissonFunction" and getattr(c, "mean", None) == base + 0.5
+            if not ok:
+                vs.append({"kind": "time_behavior:wrong_parameters", "detail": "document says %s, compiled duration object of %s "
+                           "is %r" % (tb, o.id, c), "replay": {"dsl": d}, "facts": {}})
+                return vs
+    return vs
+
+
 def c09_compile_stage(ctx):
     """C09 names the compiler too: the matrix a machine uses is the one written for that machine. Documents with
     up to 13 machines (two-digit machine numbers), each machine with its own matrix; compile only."""
@@ -1079,7 +1115,7 @@ def _dsl_worker(args):
             out["sections"]["init_state"] += 1
         try:
             inst, st = jsl.compile_dict(d, cfg)
-            for v in _direct_compile_oracles(d, inst, st) + setup_matrix_oracle(d, inst):
+            for v in _direct_compile_oracles(d, inst, st) + setup_matrix_oracle(d, inst) + time_behavior_oracle(d, inst):
                 out["violations"].append(v)
             c = jsl.Codec(inst, True)
             impl = "(ok %s %s %s)" % (c.inst_sx, c.state(st), c.labels_sx())
@@ -1119,7 +1155,9 @@ def _dsl_worker(args):
                                         "no_overdue", "agv_phase", "idle_unclaimed"):
                     out["violations"].append({"kind": "init:" + nme, "detail": "compiled initial state violates clause " + nme,
                                               "replay": {"dsl": d}, "facts": {"clause": nme}})
-            if len(out["docs_for_hash"]) < 12:
+            if len(out["docs_for_hash"]) < 12 and "time_behavior" not in feats:
+                # (stochastic objects take their start seeds from the global numpy state at compile time: such documents
+                #  are compared across processes by C13 with seeding, not here)
                 out["docs_for_hash"].append(d)
         # job labels: swapping the labels of two job lines must swap the jobs (or be rejected)
         if prop == "C16" and feats["nj"] >= 2 and inst is not None and rng.random() < 0.3:
